@@ -1,16 +1,16 @@
-CHECKS = {
- "C16": dict(
-  text="Unbounded Coq theorems over the EpochManager / stan_epochs / chunk-length model (accept iff valid for every list; manager state machine; consecutive states; Stan schedule valid, summing to the request, doubling pattern, for all admissible arguments; gcd chunk divides). The model is tied to the code on every run by an exhaustive bounded correspondence (all sequences up to length 3 over an 80-letter alphabet), random append/next interleavings and a stan_epochs grid, certified by vm_compute lemmas.",
-  note="Trusted: Coq kernel (vm_compute), the hand-written model Goose/Epoch.v + Warmup.v, the Python harness; theorems are closed under the global context (no axioms). The error *class* of a rejection is not compared, only accept/reject.",
-  technique="Rocq proof (induction over schedules, loop invariant for the doubling loop) + exhaustive model/implementation correspondence evaluated in Coq"),
- "C05": dict(
-  text="Coq theorems over an IEEE special-value model (NaN, +-inf, exact rationals) of mh_step: accepted iff the uniform draw is strictly below the reported probability; probability 0 (zero density / NaN ratio) never accepted, probability 1 always; NaN ratio gives code 90 and rejection; probability in [0,1]; state selection. The variant found in the code (<=) is refuted inside the development (C05_le_refuted). Correspondence: real mh_step (jit+vmap and eager) on all 125 special-value combinations x key strata incl. PRNG keys whose uniform draw is exactly 0.0, re-run by the model inside Coq.",
-  note="Trusted: Coq kernel, model Base/Xnum.v + Goose/MH.v, harness; jnp.exp enters as an oracle with three stated facts (exp(-inf)=0, non-NaN/non-negative on non-NaN input); float32 +,- are exact on the generated dyadic inputs (checked per case). Theorems closed under the global context.",
-  technique="Rocq proof by case analysis over the IEEE special-value layer + model/implementation correspondence evaluated by vm_compute"),
- "C20": dict(
-  text="Coq theorems over the Stopper / optim_flat loop model: stop_now equals the documented window rule whenever patience <= max_iter (no clamping of dynamic_slice fires); the while loop ends at the least index at which the rule fires, within max_iter; iteration_best lies in the final window of the user patience, minimises the loss there and is the first such, with or without a validation model (without one the loop provably runs to max_iter-1) and the returned position index for restore_best_position on/off (C20_optim_flat_spec); history length / NaN padding; batch keys pairwise distinct when the carry is advanced, and the stale-carry variant found in the code is refuted. Correspondence: Stopper methods on ALL loss histories of length 6 over {0,1,2,3} x all i x 38 configurations (exhaustive, compared word by word inside Coq), optim_flat end-to-end with scripted positions, captured mini-batch keys.",
-  note="Trusted: Coq kernel, model Goose/Stopper.v, harness; losses are exact rationals (float rounding can flip a comparison only on borderline cases, which the harness detects and skips, counted in the evidence); jax.random.split behaves like a free splitting tree; optax/JAX while_loop semantics. Consistency of the returned model state is tested, not proved. Theorems closed under the global context. The unchanged tree implements the Stale key variant (known finding F7 in known_findings.json, not repairable without editing a pinned repo test): the check prints KNOWN-FINDING for it and pins that variant in the correspondence.",
-  technique="Rocq proof (loop invariant, argmin specification) + exhaustive bounded correspondence evaluated by vm_compute"),
-}
-NOT_BUILT = {p: "check not built yet in this session (planned; see DESIGN.md section 9)" for p in
-  ["C01","C02","C03","C04","C06","C07","C08","C09","C10","C11","C12","C13","C14","C15","C17","C18","C19"]}
+"""The manifest table: one JSON file per *claimed* property in /verif/manifest.d/Cnn.json
+({"text", "note", "technique"}); every property without such a file is listed under not_applicable
+with the reason given in manifest.d/not_claimed.json (or a default)."""
+import glob, json, os
+
+D = "/verif/manifest.d"
+CHECKS = {}
+for p in sorted(glob.glob(os.path.join(D, "C[0-9][0-9].json"))):
+    pid = os.path.basename(p)[:-5]
+    CHECKS[pid] = json.load(open(p))
+ALL = [json.loads(l)["id"] for l in open("/verif/properties.jsonl") if l.strip()]
+_reasons = {}
+if os.path.exists(os.path.join(D, "not_claimed.json")):
+    _reasons = json.load(open(os.path.join(D, "not_claimed.json")))
+NOT_BUILT = {p: _reasons.get(p, "check not finished yet (model and proofs in progress; see DESIGN.md section 9) - not claimed")
+             for p in ALL if p not in CHECKS}
